@@ -270,7 +270,7 @@ def run(c: Check):
                 all(d["id"] >= 0 for d in r["defs"])
             if ok:
                 coq_cases.append(dict(export=r["export"], root=x["root"], defs=r["defs"], reloaded=r["reloaded"], desc=x["desc"],
-                                      executed=r.get("executed"), executed_error=r.get("executed_error")))
+                                      executed=r.get("executed"), executed_error=r.get("executed_error"), returned=r.get("returned_tasks")))
             else:
                 c.count("outside-model")
     c.samples = [dict(desc=x["desc"], root=x["root"]) for x in cases[:2]]
@@ -290,6 +290,10 @@ def run(c: Check):
             c.violation("C12:executed-tasks-differ", "the job process executes other pre/init tasks (or in another order) than the "
                         "model's exec_plan: pre-tasks of every saved configuration once, then the init tasks of the task that runs",
                         dict(desc=k["desc"], root=k["root"], executed=k["executed"], plan=plan))
+    for k, plan in zip(coq_cases, plans):
+        if plan is not None and k["returned"] is not None and k["returned"] != plan:
+            c.violation("C12:returned-tasks-differ", "fromParameters(return_tasks=True) does not return the configuration with the "
+                        "pre/init tasks of the model's exec_plan", dict(desc=k["desc"], root=k["root"], returned=k["returned"], plan=plan))
     c.level_assumptions = [
         "object identity is abstract: definitions and reloaded nodes are aligned on heap positions through the python ids the implementation itself wrote",
         "json.dump/json.load are trusted to round-trip ints, floats (incl. nan/inf/-0.0), strings and nested lists/dicts",
